@@ -46,8 +46,9 @@ def _kw(rnd, s: str) -> str:
 
 
 class Gen:
-    def __init__(self, rnd):
+    def __init__(self, rnd, flags=(1, 1)):
         self.rnd = rnd
+        self.flags = flags
         self.val = 0
         # rough shadow of what exists, only used to bias name choice (never for verdicts)
         self.dbs: set = set()
@@ -56,6 +57,8 @@ class Gen:
         self.nsess = 0
 
     def name(self, i):
+        if self.rnd.random() < 0.1:
+            return '"' + NAMES[i].upper() + '"'   # quoted spelling of the same name
         return _spell(self.rnd, NAMES[i])
 
     def pick_db(self):
@@ -97,23 +100,28 @@ class Gen:
         r = self.rnd
         k = r.random()
         self.nsess += 1
+        fl = f"{self.flags[0]},{self.flags[1]}"
         if k < 0.15:
-            return {"op": "c,-,-", "connect": [None, None]}
+            return {"op": f"c,-,-,{fl}", "connect": [None, None]}
         if k < 0.4:
             d = r.choice(list(DBS))
-            self.dbs.add(d)
-            return {"op": f"c,{d},-", "connect": [self.name(d), None]}
+            if self.flags[0]:
+                self.dbs.add(d)
+            return {"op": f"c,{d},-,{fl}", "connect": [_spell(r, NAMES[d]), None]}
         d, s = r.choice(list(DBS)), r.choice(list(SCHEMAS))
-        self.dbs.add(d)
-        self.schemas.add((d, s))
-        return {"op": f"c,{d},{s}", "connect": [self.name(d), self.name(s)]}
+        if self.flags[0]:
+            self.dbs.add(d)
+        if self.flags[1] and d in self.dbs:
+            self.schemas.add((d, s))
+        return {"op": f"c,{d},{s},{fl}", "connect": [_spell(r, NAMES[d]), _spell(r, NAMES[s])]}
 
     WEIGHTS = [("su", 14), ("ud", 7), ("sc", 8), ("sd", 9), ("cd", 3), ("dd", 1), ("ub", 1), ("tc", 15), ("td", 6),
                ("ti", 12), ("ts", 11), ("j", 4), ("x", 4), ("c", 2)]
 
     def stmt(self):
         r = self.rnd
-        kind = r.choices([k for k, _ in self.WEIGHTS], [w for _, w in self.WEIGHTS])[0]
+        weights = [(k, w * 4 if k == "cd" and not self.flags[0] else w * 2 if k in ("sc", "c") and self.flags != (1, 1) else w) for k, w in self.WEIGHTS]
+        kind = r.choices([k for k, _ in weights], [w for _, w in weights])[0]
         if kind == "c":
             if self.nsess >= 4:
                 kind = "su"
@@ -123,32 +131,39 @@ class Gen:
         kw = lambda s: _kw(r, s)  # noqa: E731
         if kind in ("cd", "dd", "ud", "ub"):
             d = self.pick_db() if kind != "cd" or r.random() < 0.3 else r.choice(list(DBS))
-            sql = {"cd": f"{kw('create database')} {self.name(d)}", "dd": f"{kw('drop database')} {self.name(d)}",
+            ifx = int(kind == "cd" and r.random() < 0.3)
+            sql = {"cd": f"{kw('create database if not exists' if ifx else 'create database')} {self.name(d)}", "dd": f"{kw('drop database')} {self.name(d)}",
                    "ud": f"{kw('use database')} {self.name(d)}", "ub": f"{kw('use')} {self.name(d)}"}[kind]
             if kind == "cd":
                 self.dbs.add(d)
-            return {"op": f"s,{i},{kind},{d}", "sql": sql}
+            return {"op": f"s,{i},{kind},{d}" + (f",{ifx}" if kind == "cd" else ""), "sql": sql}
         if kind in ("sc", "sd", "su"):
             enc, txt, (d, s) = self.sref()
-            sql = {"sc": f"{kw('create schema')} {txt}", "sd": f"{kw('drop schema')} {txt}", "su": f"{kw('use schema')} {txt}"}[kind]
+            ifx = int(kind != "su" and r.random() < 0.35)
+            sql = {"sc": f"{kw('create schema if not exists' if ifx else 'create schema')} {txt}",
+                   "sd": f"{kw('drop schema if exists' if ifx else 'drop schema')} {txt}", "su": f"{kw('use schema')} {txt}"}[kind]
             if kind == "sc":
                 self.schemas.add((d, s))
             if kind == "sd" and r.random() < 0.7:
                 self.schemas.discard((d, s))
-            return {"op": f"s,{i},{kind},{enc}", "sql": sql}
+            return {"op": f"s,{i},{kind}," + ("" if kind == "su" else f"{ifx},") + enc, "sql": sql}
         if kind == "tc":
             enc, txt, o = self.tref()
             self.objs.add(o)
+            ifx = int(r.random() < 0.25)
             if r.random() < 0.75:
-                return {"op": f"s,{i},tc,t,0,{enc}", "sql": f"{kw('create table')} {txt} (x {kw('int')})"}
+                return {"op": f"s,{i},tc,t,0,{ifx},{enc}", "sql": f"{kw('create table if not exists' if ifx else 'create table')} {txt} (x {kw('int')})"}
             self.val += 1
-            return {"op": f"s,{i},tc,v,{self.val},{enc}", "sql": f"{kw('create view')} {txt} {kw('as select')} {self.val} {kw('as')} x"}
+            return {"op": f"s,{i},tc,v,{self.val},{ifx},{enc}",
+                    "sql": f"{kw('create view if not exists' if ifx else 'create view')} {txt} {kw('as select')} {self.val} {kw('as')} x"}
         if kind == "td":
             enc, txt, o = self.tref()
             k = "t" if r.random() < 0.75 else "v"
             if r.random() < 0.7:
                 self.objs.discard(o)
-            return {"op": f"s,{i},td,{k},{enc}", "sql": f"{kw('drop table' if k == 't' else 'drop view')} {txt}"}
+            ifx = int(r.random() < 0.3)
+            what = ('drop table' if k == 't' else 'drop view') + (' if exists' if ifx else '')
+            return {"op": f"s,{i},td,{k},{ifx},{enc}", "sql": f"{kw(what)} {txt}"}
         if kind == "ti":
             enc, txt, _ = self.tref()
             self.val += 1
@@ -163,24 +178,50 @@ class Gen:
         return {"op": f"s,{i},x", "sql": f"{kw('select current_database')}(), {kw('current_schema')}()"}
 
 
-def gen_history(rnd, length: int) -> list[dict]:
-    g = Gen(rnd)
-    ops = [{"op": f"c,{OBS},-", "connect": ["obs", None]}]
+def prefix(flags) -> list[dict]:
+    """the observer: connects without context, creates and enters its own database (works under every flag pair)"""
+    fl = f"{flags[0]},{flags[1]}"
+    return [{"op": f"c,-,-,{fl}", "connect": [None, None]}, {"op": f"s,0,cd,{OBS},0", "sql": "create database obs"},
+            {"op": f"s,0,ud,{OBS}", "sql": "use database obs"}]
+
+
+def gen_history(rnd, length: int) -> dict:
+    flags = rnd.choices([(1, 1), (0, 1), (1, 0), (0, 0)], [60, 16, 10, 14])[0]
+    g = Gen(rnd, flags)
+    ops = prefix(flags)
     g.nsess = 1
     for _ in range(rnd.choice([1, 1, 2, 2, 3])):
         ops.append(g.connect())
     for _ in range(length):
         ops.append(g.stmt())
-    return ops
+    return {"flags": list(flags), "ops": ops}
+
+
+def _upgrade(op: str, flags) -> str:
+    """old corpus token format -> current (IF EXISTS flags = 0, connect flags of the history)"""
+    t = op.split(",")
+    if t[0] == "c":
+        return ",".join(t + [str(flags[0]), str(flags[1])])
+    k = t[2]
+    if k == "cd":
+        return ",".join(t + ["0"])
+    if k in ("sc", "sd"):
+        return ",".join(t[:3] + ["0"] + t[3:])
+    if k == "tc":
+        return ",".join(t[:5] + ["0"] + t[5:])
+    if k == "td":
+        return ",".join(t[:4] + ["0"] + t[4:])
+    return op
 
 
 # hand-written histories that always run first: one per finding region / repaired defect / adversarial shape
-def corpus() -> list[list[dict]]:
-    def H(*steps):
-        ops = [{"op": f"c,{OBS},-", "connect": ["obs", None]}]
-        for s in steps:
-            ops.append({"op": s[0], "connect": list(s[1])} if s[0].startswith("c,") else {"op": s[0], "sql": s[1]})
-        return ops
+def corpus() -> list[dict]:
+    def H(*steps, flags=(1, 1), raw=False):
+        ops = prefix(flags)
+        for st in steps:
+            op = st[0] if raw else _upgrade(st[0], flags)
+            ops.append({"op": op, "connect": list(st[1])} if op.startswith("c,") else {"op": op, "sql": st[1]})
+        return {"flags": list(flags), "ops": ops}
     c11 = ("c,11,21", ("db1", "s1"))
     c22 = ("c,12,22", ("db2", "s2"))
     c0 = ("c,-,-", (None, None))
@@ -207,6 +248,27 @@ def corpus() -> list[list[dict]]:
           ("s,1,su,21", "use schema s1"), ("s,1,sc,11.21", "create schema db1.s1"), ("s,1,tc,t,0,11.21.31", "create table db1.s1.t1 (x int)"),
           ("s,2,tc,t,0,31", "create table t1 (x int)"), ("s,2,tc,t,0,21.31", "create table s1.t1 (x int)"), ("s,2,ti,1,21.31", "insert into s1.t1 values (1)"),
           ("s,1,su,11.21", "use schema db1.s1"), ("s,1,ts,31", "select x from t1 order by x"), ("s,2,sd,21", "drop schema s1"), ("s,1,ts,31", "select x from t1 order by x")),
+        # IF EXISTS / IF NOT EXISTS and quoted spellings: dropping the own current schema in every spelling gives 90106 afterwards
+        H(("c,11,21,1,1", ("db1", "s1")), ("s,1,sd,1,21", "drop schema if exists s1"), ("s,1,tc,t,0,1,31", "create table if not exists t1 (x int)"),
+          ("s,1,sc,1,21", "create schema if not exists s1"), ("s,1,sc,1,21", 'create schema if not exists "S1"'), ("s,1,su,21", "use schema s1"),
+          ("s,1,sd,1,11.21", 'drop schema if exists db1."S1"'), ("s,1,ts,31", "select x from t1 order by x"), ("s,1,sd,1,22", "drop schema if exists s2"),
+          ("s,1,sc,0,11.22", "create schema db1.s2"), ("s,1,su,22", 'use schema "S2"'), ("s,1,tc,t,0,1,31", "create table if not exists t1 (x int)"),
+          ("s,1,tc,t,0,1,31", "create table if not exists t1 (x int)"), ("s,1,tc,v,3,1,31", "create view if not exists t1 as select 3 as x"),
+          ("s,1,tc,v,4,0,32", "create view t2 as select 4 as x"), ("s,1,tc,t,0,1,32", "create table if not exists t2 (x int)"), ("s,1,td,t,1,32", "drop table if exists t2"),
+          ("s,1,td,v,1,33", "drop view if exists t3"), ("s,1,td,t,1,23.31", "drop table if exists s3.t1"), ("s,1,sd,1,22", 'drop schema if exists "S2"'),
+          ("s,1,ti,1,31", "insert into t1 values (1)"), ("s,1,cd,11,1", "create database if not exists db1"), raw=True),
+        # create_*_on_connect = False: a connection names a database / schema that does not exist yet; another connection creates
+        # them; the first connection's own qualified USE SCHEMA then gives it the full context
+        H(("c,11,21,0,0", ("db1", "s1")), ("c,-,-,0,0", (None, None)), ("s,1,ts,31", "select x from t1 order by x"), ("s,2,cd,11,0", "create database db1"),
+          ("s,2,sc,0,11.21", "create schema db1.s1"), ("s,2,tc,t,0,0,11.21.31", "create table db1.s1.t1 (x int)"), ("s,1,ts,21.31", "select x from s1.t1 order by x"),
+          ("s,1,su,11.21", "use schema db1.s1"), ("s,1,ti,1,31", "insert into t1 values (1)"), ("s,1,ts,21.31", "select x from s1.t1 order by x"),
+          ("s,1,sc,0,22", "create schema s2"), ("s,1,x", "select current_database(), current_schema()"), flags=(0, 0), raw=True),
+        # …the same with the unqualified USE SCHEMA (resolves against the *named* database, database_set stays False) and USE DATABASE;
+        # a named schema that is missing while the database exists
+        H(("c,11,21,0,0", ("db1", "s1")), ("c,-,-,0,0", (None, None)), ("s,2,cd,11,0", "create database db1"), ("s,2,sc,0,11.21", "create schema db1.s1"),
+          ("s,1,su,21", "use schema s1"), ("s,1,tc,t,0,0,31", "create table t1 (x int)"), ("s,1,ud,11", "use database db1"), ("s,1,su,21", "use schema s1"),
+          ("s,1,tc,t,0,0,31", "create table t1 (x int)"), ("c,11,22,0,0", ("DB1", "S2")), ("s,3,tc,t,0,0,32", "create table t2 (x int)"),
+          ("s,3,sc,0,22", "create schema s2"), ("s,3,su,22", "use schema s2"), ("s,3,tc,t,0,0,32", "create table t2 (x int)"), flags=(0, 0), raw=True),
     ]
 
 
@@ -291,7 +353,7 @@ CTX_KINDS = {"su", "ud", "ub", "sd", "dd", "cd", "connect"}   # after these CURR
 DDL_KINDS = {"tc", "td", "sc", "sd", "cd", "dd", "connect"}   # after these the catalog is re-read
 
 
-def real_history(ops: list[dict]) -> list[str]:
+def real_history(hist: dict) -> list[str]:
     """one observation string per op: `<res>~<sessions>~<catalog>` (+ `~<rows>` on the last op).
     conn.database/conn.schema of every connection are read after every step; CURRENT_DATABASE()/CURRENT_SCHEMA() of the
     issuing connection after every step and of every connection after every context-changing kind of statement; the
@@ -299,7 +361,9 @@ def real_history(ops: list[dict]) -> list[str]:
     import fakesnow
     import snowflake.connector
     out = []
-    with fakesnow.patch():
+    ops = hist["ops"]
+    cd, cs = hist["flags"]
+    with fakesnow.patch(create_database_on_connect=bool(cd), create_schema_on_connect=bool(cs)):
         conns, paths, cat = [], [], None
         for k, op in enumerate(ops):
             last = k == len(ops) - 1
@@ -325,10 +389,10 @@ def real_history(ops: list[dict]) -> list[str]:
                 paths = [_current(c) for c in conns]
             else:
                 paths[i] = _current(conns[i])
-            if kind in DDL_KINDS or last or cat is None:
+            if k >= 2 and (kind in DDL_KINDS or last or cat is None):   # steps 0-2: the observer connects, creates and enters its database
                 cat = _catalog(conns[0])
             sess = "!".join(f"{_id(c.database)}/{_id(c.schema)}/{p}" for c, p in zip(conns, paths))
-            obs = f"{res}~{sess}~{cat}"
+            obs = f"{res}~{sess}~{cat or ''}"
             if last:
                 obs += "~" + _rows(conns[0], cat)
             out.append(obs)
@@ -355,12 +419,14 @@ def _canon_cat(c: str, with_rows: bool) -> str:
     return ",".join(sorted(x for x in dbs.split(",") if x)) + "|" + ",".join(sorted(x for x in schemas.split(",") if x)) + "|" + ",".join(sorted(os_))
 
 
-def _check_history(chk, ops: list[dict], real: list[str], reply: dict) -> None:
-    case = {"ops": ops}
+def _check_history(chk, hist: dict, real: list[str], reply: dict) -> None:
+    ops = hist["ops"]
+    case = {"flags": hist["flags"], "ops": ops}
     steps = dec_list(reply.get("steps", ""))
     if len(steps) != len(ops):
         raise common.Infra(f"model answered {len(steps)} steps for {len(ops)} ops: {reply.get('_raw', '')[:300]}")
     fp = tuple(o["op"] for o in ops)
+    chk.count(f"history:create_database_on_connect={hist['flags'][0]},create_schema_on_connect={hist['flags'][1]}")
     nontrivial = sum(1 for o in ops if not o["op"].startswith("c,")) >= 3
     chk.case(fp, nontrivial=nontrivial)
     for k, op in enumerate(ops):
@@ -382,6 +448,8 @@ def _check_history(chk, ops: list[dict], real: list[str], reply: dict) -> None:
         spec_ctx = [m[4:6] for m in msess]
         real_fields = [r[0:2] for r in rsess]
         real_paths = [r[2:4] for r in rsess]
+        if r_cat == "":   # before the observer's database exists the catalog cannot be listed
+            r_cat = impl_cat if spec_cat == "?" else spec_cat
         r_cat_c, impl_cat_c = _canon_cat(r_cat, False), _canon_cat(impl_cat, False)
         # the observer connection reports `obs`-relative names like everybody else; compare everything
         eq_impl = (r_res_c == impl_res and real_fields == impl_fields and real_paths == impl_paths and r_cat_c == impl_cat_c)
@@ -429,7 +497,7 @@ def _check_history(chk, ops: list[dict], real: list[str], reply: dict) -> None:
 
 def _histories(chk) -> list[list[dict]]:
     rnd = random.Random(chk.seed)
-    n = 110 if chk.tier == "quick" else 1500
+    n = 180 if chk.tier == "quick" else 1200
     hs = corpus()
     for _ in range(n):
         hs.append(gen_history(rnd, rnd.randint(5, 40)))
@@ -438,19 +506,20 @@ def _histories(chk) -> list[list[dict]]:
 
 def run(chk) -> None:
     hs = _histories(chk)
-    chk.rule = ("histories of 5-40 statements on 1-3 connections (+observer) of one instance over 3 databases x 3 schemas x 3 object names, "
+    chk.rule = ("histories of 5-40 statements (35 % of CREATE/DROP with IF [NOT] EXISTS, 10 % of names in quoted upper-case form) on 1-3 connections (+observer) of one "
+                "instance (40 % with create_*_on_connect = False) over 3 databases x 3 schemas x 3 object names, "
                 "names mostly drawn from what exists; every step observed: outcome, conn.database/schema and CURRENT_* of every connection, "
                 "full catalog; rows of every object at the end.  non-trivial = distinct history with >= 3 statements")
     shards = common.chunks(hs, 16)
     reals = common.shard_map(_worker, shards)
     for shard, rs in zip(shards, reals):
-        replies = common.batch(["names\thist\t" + enc_list([o["op"] for o in h]) for h in shard])
+        replies = common.batch(["names\thist\t" + enc_list([o["op"] for o in h["ops"]]) for h in shard])
         for h, real, reply in zip(shard, rs, replies):
             _check_history(chk, h, real, reply)
-    chk.samples = [[o.get("sql") or f"connect{tuple(o['connect'])}" for o in h][:12] for h in hs[len(corpus()):len(corpus()) + 3]]
+    chk.samples = [[o.get("sql") or f"connect{tuple(o['connect'])}" for o in h["ops"]][:12] for h in hs[len(corpus()):len(corpus()) + 3]]
     chk.assumptions = [
         "identifiers are unquoted ASCII names; database, schema and object name pools are disjoint (DuckDB reads `a.b` as catalog.table when no schema `a` exists)",
-        "connections are opened with the default create_database/create_schema and never with a schema but no database (connect ladder: C14)",
+        "connects run under all four create_database_on_connect / create_schema_on_connect pairs (the ladder itself: C14); a schema is never named without a database",
         "statement status text / rowcount are not compared here (C04); only success, rows of queries, errno+sqlstate, context and catalog",
     ]
     chk.trusted.append("modelled engine (Fs.Names.Cat.applyS/applyT/read, duckResolve): DuckDB exception class per cause, search-path resolution "
@@ -458,7 +527,7 @@ def run(chk) -> None:
 
 
 def replay(chk, case) -> None:
-    ops = case["ops"]
-    real = _worker([ops])[0]
-    reply = common.batch(["names\thist\t" + enc_list([o["op"] for o in ops])])[0]
-    _check_history(chk, ops, real, reply)
+    hist = {"flags": case.get("flags", [1, 1]), "ops": case["ops"]}
+    real = _worker([hist])[0]
+    reply = common.batch(["names\thist\t" + enc_list([o["op"] for o in hist["ops"]])])[0]
+    _check_history(chk, hist, real, reply)
